@@ -58,6 +58,15 @@ fn main() {
         "describe" => cmd_describe(&args[2..]),
         "oracle" => cmd_oracle(&args[2..]),
         "query" => cmd_query(&args[2..]),
+        "chan" => cmd_chan(&args[2..]),
+        "mem" => {
+            let mut m = mach::Mach::with_input_string(args[3].clone(), args[2] == "static");
+            for q in &args[4..] {
+                let r = m.run(q, 20);
+                println!("{}\n   => {}", q, r.text());
+            }
+            0
+        }
         _ => {
             eprintln!("unknown subcommand");
             2
@@ -123,6 +132,29 @@ fn cmd_query(args: &[String]) -> i32 {
             let mut t = vh::instr_text(m.machine(), i);
             t.truncate(400);
             println!("  {i} {} {t}", vh::predicate_at(m.machine(), i));
+        }
+    }
+    0
+}
+
+/// debugging aid: `chan send:HEX | close | <query>` ... against a machine with channel input
+fn cmd_chan(args: &[String]) -> i32 {
+    use std::io::Write as _;
+    let (mut m, tx) = mach::Mach::with_channel_input();
+    let mut tx = Some(tx);
+    for a in args {
+        if let Some(hex) = a.strip_prefix("send:") {
+            let bytes: Vec<u8> = (0..hex.len() / 2).filter_map(|i| u8::from_str_radix(&hex[2 * i..2 * i + 2], 16).ok()).collect();
+            if let Some(t) = tx.as_mut() {
+                let _ = t.write(&bytes);
+            }
+            println!("[sent {} bytes]", bytes.len());
+        } else if a == "close" {
+            tx = None;
+            println!("[closed]");
+        } else {
+            let r = m.run(a, 20);
+            println!("{}\n   => {}", a, r.text());
         }
     }
     0
